@@ -34,6 +34,7 @@ def run(chk):
     it = B.prepare(chk)
     S.check_layout(it.adts)
     chk.bounds = {'tx shapes (inputs, outputs, covenants)': [str(s) for s in shapes_for(chk.tier)],
+                  'batch accounting': '2 transactions in one create_next_state (3 in the thorough tier)',
                   'serialized length': 'symbolic, < 2^32', 'covenant weights': 'any u128 each, sum < 2^128 (see finding)',
                   'fee, multiplier, fee pool, tips': 'full u128 (pool + tips <= 2^127 for the reward coin)'}
     chk.assume_note('stdcode::serialize(tx).len() is a symbolic length; covenant_weight_from_bytes is an uninterpreted '
